@@ -68,6 +68,12 @@ CLAIMS = {
         "Trusted: list indexing semantics; arithmetic sufficiency of a rewritten (slice-based) read is UNDECIDED, not decided.",
         "DESIGN.md §4 C16",
     ),
+    "C04": (
+        "cursor typestate of the layout encoder: dominance of the reset over the first layout step, emit/advance agreement on every path (CFG), attribute-write inventory, return-path extraction of the type-length function, provenance of option lookups, copy-only mutation",
+        "Structural (tiling by construction): generate() rebinds a fresh output list and sets the cursor to 0 before any layout step; during layout only the list and the cursor are written; every leaf is emitted at the cursor with length L and the cursor then advances by the same L on every path; L comes from the type-length function, which returns the declared width / size x element / get_packed_size() unmodified and raises for every other class; fields are visited in ascending id; options are looked up under exactly the emitted field's name by an exact-name match and option dicts are never mutated; only copies of schema objects are written. Covers every fixed-size struct shape and every sequence of generate() calls.",
+        "Trusted: uniqueness of hierarchical names and option propagation to unrolled array elements are not decided; an enum width re-implemented in a helper is UNDECIDED unless it uses a float log formula.",
+        "DESIGN.md §4 C04",
+    ),
 }
 
 NOT_BUILT = "check not built yet in this session (see DESIGN.md §7 build order); not claimed until it exists"
